@@ -149,6 +149,15 @@ fn check_site(lat: f64, lon: f64, date: NaiveDate, rep: &mut Report) -> Result<(
     if *ctx.locale.get_timezone() != tz {
         return Err(format!("Context::from_coords and TzLocation::from_coords disagree on the zone at ({lat}, {lon}): {} vs {tz}", ctx.locale.get_timezone()));
     }
+    // hostile history (not judged itself): the same coordinates under another, explicit zone are
+    // evaluated on the same dates just before the context under test
+    let other_zone = if tz == chrono_tz::UTC { chrono_tz::Asia::Tokyo } else { chrono_tz::UTC };
+    let _ = guarded(|| {
+        let h = OpeningHours::parse("dawn-dusk; sunrise-sunset unknown").unwrap().with_context(Context::default().with_locale(TzLocation::new(other_zone).with_coords(coords)));
+        let _ = h.schedule_at(date);
+        let _ = h.schedule_at(date.succ_opt().unwrap_or(date));
+    });
+    rep.count("hostile_history_same_coordinates_other_zone");
     let oh = OpeningHours::parse("sunrise-sunset").unwrap().with_context(ctx.clone());
     let oh2 = OpeningHours::parse("dawn-dusk").unwrap().with_context(ctx);
     // the very first evaluation in this context is kept and judged below (so that whatever was
